@@ -142,8 +142,38 @@ def obligations(tier):
 
 
 # ---- control files -> tables (tag h2).  The obligations above give rcpthosts()/addrallowed() symbolic TABLES; these decide that
-# the tables the programs use are exactly what the control FILES say.  control_file_*_ref are borrowed by C10 (getcontrols /
-# regetcontrols read locals, virtualdomains, percenthack through control_readfile).
+# the tables the programs use are exactly what the control FILES say.  control_read*_ref are borrowed by C10 (getcontrols /
+# regetcontrols read locals, virtualdomains, percenthack through control_readfile, envnoathost through control_rldef).
+#   control_readfile_ref   control.c control_init + control_readfile == reference reader of qmail-control(5) (ctlread.c KIND=0)
+#   control_readline_ref   control.c control_rldef / control_readline: first line, defaults me / literal      (ctlread.c KIND=1)
+#   control_readint_ref    control.c control_readint: decimal first line, caller's default kept              (ctlread.c KIND=2)
+#   ipme_is_ref            ipme.c ipme_is over a pre-filled table of local addresses                         (ipme.c)
+#   newmrh_keys            qmail-newmrh.c main(): keys handed to the cdb writer, finish/fsync/close/rename   (newmrh.c)
+#   rcpthosts_from_file    rcpthosts_init + rcpthosts on control.c + constmap.c real, rcpthosts FILE symbolic (rhfile.c)
+#
+# kills: (hand-made mutants in scratch worktrees, tools/mutant.sh; each printed VIOLATION with a native replay rc 1)
+#   control_readfile_ref:  control.c  '\t' no longer stripped (notab); '#' lines kept (nocomment); last line without newline lost
+#                          (`if (!match)` return before the line is used: lastline); default me without flagme (`if (meok)`: meflag);
+#                          every open error taken for ENOENT (noent); default entry not NUL-terminated (me0); read error answered 1 with
+#                          the shorter list (rderr); strip loop `while (sa->len > 1)` (strip1: a blank line becomes an entry);
+#                          `stralloc_copys(sa,"")` removed (noreset: caught as growth beyond the arena, the old contents stay in front)
+#   control_readline_ref:  control_rldef literal default before me (defme); open error answered 0 (rlnoent); notab; no stripping at all (rlnostrip)
+#   control_readint_ref:   `*i = 0` before the number is known (intclobber: default lost on a non-number); error -1 turned into 0 (intnoent);
+#                          missing stralloc_0 before scan_ulong (int0: stale digits of the shared line buffer are read)
+#   ipme_is_ref:           ipme.c  compare 3 of 4 bytes (ip3); last entry skipped `i + 1 < ipme.len` (iplast); loop to ipme.a (ipstale);
+#                          loop from 1 (ipfirst); compares the pref field (ippref)
+#   newmrh_keys:           qmail-newmrh.c  case_lowerb removed (nolower); '\t' not stripped (notab); '#' lines added (nocomment); rename before
+#                          fsync/close (renamefirst); fsync result ignored (fsyncign); close result ignored (closeign); read error ends the
+#                          loop instead of die_read (readign: truncated list installed); `if (!match) break` before the line is used
+#                          (lastline); die_write exits 100 (exit100)
+#   rcpthosts_from_file:   rcpthosts.c  constmap_init(...,1) (colon: plain entries ignored); cdb open error ignored (cdberr); dot-suffix rule
+#                          dropped (nodot, AT=0); constmap_init over rh.len - 1 (rhlen: last entry lost); `flagrh == -1` instead of `!= 1`
+#                          (nofile: NULL table used).  control.c notab / nocomment / lastline / rderr.  constmap.c hash() without case
+#                          folding (hashcase).
+#   NOT caught, and why:   control.c  `stralloc_copys(sa,"")` moved after the open (resetlate: differs only in what sa holds when the answer
+#                          is 0, which no document fixes); control_readint demanding that the whole line is digits (intall) and '\t' no
+#                          longer stripped before scan_ulong (notab on readint): both differ only on lines that are not plain decimal
+#                          numbers resp. not at all (scan_ulong stops at the blank) - documents silent, accepted by design.
 def _control_file_obligations(tier):
     q = tier == "quick"
     obls = []
@@ -175,7 +205,7 @@ def _control_file_obligations(tier):
             lib=["ideal_substdio.c", "ideal_getln.c", "arena_stralloc.c"], sysrename=["close"],
             defines={"KIND": kind, "ARENA_SLOTS": 3, "M": 2},
             grid=[{"N": n, "ARENA_CAP": 2 * n + 4} for n in ns],     # slack: a reader that keeps too much fails the comparison, not the sizing check
-            unwind_default=lambda p: p["N"] + 4, unwind=lambda p: {"vmain~stale_sa[i]": p["ARENA_CAP"] + 1}, timeout=900,
+            unwind_default=lambda p: p["N"] + 4, unwind=lambda p: {"vmain~stale_sa[i]": p["ARENA_CAP"] + 1}, timeout=900 if q else 2400,
             backend="cadical" if kind == 2 else "minisat",     # measured at the largest quick point: readint 37 s cadical / 303 s minisat, readfile 194 s cadical / 54 s minisat
             functions=["control.c:control_init", "control.c:control_readfile", "control.c:control_readline", "control.c:control_rldef",
                        "control.c:control_readint", "control.c:striptrailingwhitespace", "scan_ulong.c", "stralloc_*.c"],
@@ -204,7 +234,7 @@ def _control_file_obligations(tier):
         lib=["ideal_substdio.c", "ideal_getln.c", "arena_stralloc.c"], defines={"ARENA_SLOTS": 1},
         sysrename=["umask", "chdir", "fsync", "close", "rename", "_exit"],
         grid=[{"N": n, "ARENA_CAP": n + 3} for n in ([0, 3, 5, 6] if q else [0, 1, 2, 3, 4, 5, 6, 7, 8])],
-        unwind_default=lambda p: p["N"] + 4, timeout=900,
+        unwind_default=lambda p: p["N"] + 4, timeout=900 if q else 2400,
         functions=["qmail-newmrh.c:main", "qmail-newmrh.c:die_read", "qmail-newmrh.c:die_write", "case_lowerb.c:case_lowerb"],
         cuts=["strerr_die -> _exit(status) (complaint text not checked)", "cdbmss_start/add/finish -> recorder (keys, data length, call order); the writer itself is C11 cdb_writer / cdb_round_trip"],
         stubs=["getln/substdio: ideal streams", "open_read/open_trunc/umask/chdir/fsync/close/rename/_exit: each may fail (EIO), order and paths checked",
@@ -219,33 +249,41 @@ def _control_file_obligations(tier):
                                    + (["add_failed_111", "nul_in_file_undetermined", "upper_case_lowered", "last_line_without_newline_counts"] if p["N"] >= 1 else [])
                                    + (["two_keys", "comment_then_key", "trailing_blanks_removed"] if p["N"] >= 3 else [])))
     def rh_wit(p):
-        n, r = p["N"], p["R"]
-        w = ["init_trouble", "read_error", "cdb_open_error", "no_rcpthosts_file", "no_at_sign", "refused", "empty_list_refuses", "done"]
-        if r >= 2: w += ["morercpthosts_match", "cdb_trouble"]
-        if r >= 2 and n >= 1: w += ["mixed_case_match"]
-        if r >= 2 and n >= 2: w += ["entry_with_trailing_blank_matches"]
-        if r >= 2 and n >= 3: w += ["listed_in_two_line_file", "match_after_comment_line"]
-        if r >= 4 and n >= 2: w += ["wildcard_match"]
+        n, r, at, cdb = p["N"], p["R"], p["AT"], p["CDB"]
+        d = r - at - 1                                     # length of the domain
+        w = ["init_trouble", "read_error", "no_rcpthosts_file"] + ([] if cdb else ["cdb_open_error"])
+        if at == r: return w + ["no_at_sign"]
+        w += ["refused", "empty_list_refuses", "done"]
+        if cdb and d >= 1: w += ["morercpthosts_match", "cdb_trouble"]
+        if d >= 1 and n >= d: w += ["mixed_case_match"]
+        if d >= 1 and n >= d + 1: w += ["entry_with_trailing_blank_matches"]
+        if d >= 1 and n >= d + 2: w += ["listed_in_two_line_file", "match_after_comment_line"]
+        if d >= 2 and n >= 2: w += ["wildcard_match"]
         return w
+    rh_quick = [(3, 4, 0, 1), (3, 4, 1, 1), (3, 4, 1, 0), (3, 4, 4, 1), (4, 4, 1, 1)]
+    rh_thorough = rh_quick + [(4, 5, at, 1) for at in (0, 1, 2, 3)] + [(5, 5, 1, 1), (5, 5, 2, 1), (5, 4, 1, 0)]
     obls.append(Obl("rcpthosts_from_file", "rhfile.c", progs=[Prog("rcpthosts.c"), Prog("control.c")],
         repo=["constmap.c", "case_diffb.c", "case_lowerb.c", "byte_rchr.c", "byte_copy.c", "stralloc_opys.c", "stralloc_opyb.c", "stralloc_cat.c",
               "stralloc_catb.c", "stralloc_copy.c", "stralloc_pend.c", "scan_ulong.c", "substdio.c"],
         lib=["ideal_substdio.c", "ideal_getln.c", "arena_stralloc.c"], defines={"ARENA_SLOTS": 3},
         sysrename=["malloc", "free", "close"], backend="minisat",
-        grid=[{"N": n, "R": r, "ARENA_CAP": max(n, r) + 3} for (n, r) in ([(3, 4), (4, 4), (4, 5), (5, 5)] if q else [(3, 3), (4, 4)])],
+        grid=[{"N": n, "R": r, "AT": at, "CDB": c, "ARENA_CAP": max(n, r) + 3} for (n, r, at, c) in (rh_quick if q else rh_thorough)],
         # tight per-loop bounds, each proved sufficient by its unwinding assertion: at most (N+1)/2 entries, keys no longer than the domain
         unwind=lambda p: {"constmap_init~for (h = 0": 66, "constmap_init~while (h &&": 1, "constmap": (p["N"] + 1) // 2 + 1,
                           "case_diffb": p["R"], "hash": max(p["N"], p["R"]) + 1, "rcpthosts": p["R"] + 1, "case_lowerb": p["R"] + 1,
                           "byte_rchr": p["R"] // 4 + 2, "byte_copy": max(p["N"], p["R"]) // 4 + 2},
-        unwind_default=lambda p: max(p["N"], p["R"]) + 3, timeout=1200,
+        unwind_default=lambda p: max(p["N"], p["R"]) + 3, timeout=900 if q else 3000,
         functions=["rcpthosts.c:rcpthosts_init", "rcpthosts.c:rcpthosts", "control.c:control_readfile", "control.c:striptrailingwhitespace",
                    "constmap.c:constmap_init", "constmap.c:constmap", "constmap.c:hash", "case_diffb.c", "case_lowerb.c", "byte_rchr.c", "stralloc_*.c"],
         cuts=["cdb_seek -> exact search over a symbolic table of lower-cased keys, may fail (keys: newmrh_keys; format: C11)"],
         stubs=["getln/substdio: ideal stream", "open_read: rcpthosts and morercpthosts.cdb each present / ENOENT / EIO", "close",
                "malloc/free: five typed fixed arrays in call order", "stralloc_ready/readyplus: arena"],
-        assumes=["control/rcpthosts of exactly N bytes (grid), any byte values except NUL; one read error anywhere; recipient of exactly R bytes (grid), "
-                 "any values except NUL; morercpthosts.cdb absent / unreadable / one key of <= 3 bytes without upper case; one cdb read error at any lookup"],
-        outside=["longer files and recipients", "files containing NUL (documents silent)", "allocation failure"],
+        assumes=["control/rcpthosts of exactly N bytes (grid), any byte values except NUL; one read error anywhere; recipient of exactly R bytes, "
+                 "any values except NUL, its last '@' at position AT (grid; AT = R: no '@'); CDB=1: morercpthosts.cdb present with one key of <= 3 bytes "
+                 "without upper case (what qmail-newmrh writes: newmrh_keys), one cdb read error at any lookup; CDB=0: absent (ENOENT) or unreadable (EIO)"],
+        outside=["longer files and recipients: the full composition costs 30-50 s at N=3/R=4 and 3-9 min at N=4..5/R=5 (symbolic hash buckets), so the "
+                 "quick tier composes at N<=4, R=4 only; the pieces are checked separately at larger sizes (control_readfile_ref N<=6/8, rcpthosts_ref "
+                 "address <= 6/8, constmap_lemma)", "files containing NUL (documents silent)", "allocation failure"],
         claim="for every rcpthosts file of N bytes and recipient of R bytes: rcpthosts_init()+rcpthosts() allow the recipient iff there is no file, no @, "
               "or its domain equals - or ends with a dot-entry among - the entries the documented reader takes from the file (or the cdb keys), "
               "case-insensitively; read/open trouble is -1, never an empty list",
